@@ -124,6 +124,14 @@ def cursor_rule(ctx):
             obs.append(ob("C16.cursor/discipline/%s" % name, False, "parse/mod.rs", "ParseState::%s not found" % name))
             continue
         obs += column_discipline(ctx, fs[0], "self", "line", "utf16_col", "cur_index", "C16.cursor/discipline", col_helpers=col_writers - {name})
+    # a method that moves the byte index also keeps the line counter: each of them either consumes one character it has looked at
+    # (and counts a line break) or hands the text to a mover that does - none moves the index and the column alone (MIR field writes)
+    idx_w = set(x.split("::")[-1] for x in w.get("cur_index", {}))
+    line_w = set(x.split("::")[-1] for x in w.get("line", {}))
+    lonely = sorted(idx_w - line_w)
+    obs.append(ob("C16.cursor/discipline/index-with-line", bool(idx_w) and not lonely, "parse/mod.rs",
+                  "every method that writes the byte index also maintains the line counter (%s)" % sorted(idx_w) if not lonely else "%s move(s) the byte index without ever touching the line counter" % lonely,
+                  witness=None if not lonely else "{{ a /* two\nlines */ + }}: the diagnostic is reported on the line where the comment began, past the end of that line"))
     if len(movers) < 3:
         obs.append(ob("C16.floor/cursor-movers", False, "parse/mod.rs", "only %d methods move the cursor (floor 3)" % len(movers)))
     tp = [f for f in tc.fns if f.name == "try_parse" and f.base == "ParseState" and f.body]
@@ -659,6 +667,64 @@ def wave7_rules(ctx):
     return obs
 
 
+def wave11_rules(ctx):
+    """obligations added after the eleventh wave of seeded changes"""
+    ob = ctx.ob
+    tc = ctx.tc
+    obs = []
+    # (1) positions refer to the text the caller handed in: `parse` gives its `source` parameter to the cursor as it is
+    pf = [f for f in tc.fns if f.name == "parse" and not f.base and f.body and f.module[:1] == ["parse"] and len(f.module) == 1]
+    if pf:
+        f = pf[0]
+        pn = [x for x in f.param_names() if x]
+        news = [x for x in sir.walk(f.body) if x.get("k") == "call" and (sir.call_path(x) or "").endswith("ParseState::new")]
+        rebound = [l_ for l_ in sir.walk(f.body) if l_.get("k") == "local" and any(b in pn for b, _ in sir.pat_bindings(l_["pat"]))]
+        okv = bool(news) and not rebound and all(len(x["args"]) >= 2 and sir.expr_str(sir.strip_ref(x["args"][1])) in pn for x in news)
+        obs.append(ob("C16.cursor/source-verbatim", okv if news else None, ctx.where(f),
+                      "the cursor is created over the `source` parameter itself" if okv else "the text given to the cursor is not the caller's text (%s)" % ("parameter re-bound" if rebound else "argument is %s" % [sir.expr_str(x["args"][1])[:40] for x in news if len(x["args"]) >= 2]),
+                      witness=None if okv else "a template that starts with U+FEFF: every position on the first line is one column short of the caller's text"))
+    # (2) a location names a spelling: where the parser rebuilds a name from another item and keeps that item's location, the text is
+    #     the item's text minus a fixed affix of the language (`data-`, the file suffix) - never trimmed, split or replaced (ASCII case folding keeps every offset)
+    bad, n_ = [], 0
+    for f in tc.fns:
+        if not f.body or f.module[:1] != ["parse"]:
+            continue
+        locs = {}
+        for n in sir.walk(f.body, into_closures=True):
+            if n.get("k") == "local" and n["pat"].get("k") == "p_ident" and n.get("init") is not None:
+                locs.setdefault(n["pat"]["name"], []).append(n["init"])
+        for n in sir.walk(f.body, into_closures=True):
+            if n.get("k") != "struct" or not re.search(r"(StrName|Ident)$", n.get("path", "")):
+                continue
+            fl = {y["name"]: y["e"] for y in n["fields"]}
+            if "name" not in fl or "location" not in fl:
+                continue
+            n_ += 1
+            e = fl["name"]
+            if e.get("k") == "path" and len(e["segs"]) == 1 and e["s"] in locs:
+                e = locs[e["s"]][-1]
+            ms = [x["m"] for x in sir.walk(e) if x.get("k") == "mcall" and re.match(r"(trim\w*|split\w*|rsplit\w*|replace\w*|chars|rev)$", x["m"])]
+            copied = re.search(r"\.location(\(\))?$", sir.expr_str(sir.strip_ref(fl["location"])).replace(" ", "").replace(".clone()", ""))
+            if ms and copied:
+                bad.append("%s: a name rebuilt with `%s` keeps `%s`" % (f.name, ms[0], sir.expr_str(fl["location"])))
+    obs.append(ob("C16.loc/name-is-spelling", False if bad else True if n_ >= 5 else None, "parse/tag.rs", "; ".join(bad[:2]) if bad else "%d rebuilt names; none is trimmed, split or replaced under a copied location" % n_,
+                  witness=None if not bad else '<wxs module=" utils "/>: the location of the module name starts at the blank'))
+    # (3) no location is pieced together from the end of one item and the end of another: a start is a sampled position or the start
+    #     of an item (what lies between two items - blanks, comments, line breaks - belongs to neither)
+    glued = []
+    for f in tc.fns:
+        if not f.body or f.module[:1] != ["parse"]:
+            continue
+        for n in sir.walk(f.body, into_closures=True):
+            if n.get("k") == "range" and n.get("from") is not None and n.get("to") is not None:
+                a_, b_ = sir.expr_str(n["from"]).replace(" ", ""), sir.expr_str(n["to"]).replace(" ", "")
+                if re.search(r"\.end$", a_) and re.search(r"\.(end|start)$", b_) and a_.rsplit(".", 1)[0] != b_.rsplit(".", 1)[0] and "location" in a_ + b_:
+                    glued.append("%s: `%s..%s`" % (f.name, a_, b_))
+    obs.append(ob("C16.loc/no-glued-ranges", not glued, "parse/expr.rs", "; ".join(glued[:2]) if glued else "no location range starts at the end of another item",
+                  witness=None if not glued else "`a .\n  b`: the location of the member name starts right after the dot, on the previous line"))
+    return obs
+
+
 def run(ctx):
     obs = cursor_rule(ctx)
     obs += map_rule(ctx)
@@ -667,4 +733,5 @@ def run(ctx):
     obs += after_skip_rule(ctx)
     obs += if_chain_rule(ctx)
     obs += wave7_rules(ctx)
+    obs += wave11_rules(ctx)
     return obs
